@@ -181,15 +181,18 @@ Proof. unfold write3. destruct (16777215 <=? ext) eqn:E; lia. Qed.
 
 Section CaaValid.
 Variable vfv : bytes -> bool.
+Variable venc : bytes -> bool.
+Variable dec : Z -> bytes -> option bytes.
 
-Lemma caa_v_file h ext attr data :
+Lemma caa_v_file_gen h ext attr data :
   zlen (f_guid h) = 16 -> 0 <= ext < 2 ^ 64 ->
   ext = file_hlen attr + zlen data -> attr_large attr = (16777215 <=? ext) ->
-  supported_file (f_type h) = false ->
-  v_file vfv (snd (checksum_and_assemble h ext attr data)) = true.
+  (supported_file (f_type h) = true ->
+   v_sections vfv venc dec (S (Z.to_nat ext)) (snd (checksum_and_assemble h ext attr data)) (file_hlen attr) = true) ->
+  v_file vfv venc dec (snd (checksum_and_assemble h ext attr data)) = true.
 Proof.
   intros Hg He Hext Hl Hsup.
-  unfold checksum_and_assemble. cbn [snd].
+  unfold checksum_and_assemble in *. cbn [snd] in *.
   set (large := attr_large attr) in *.
   set (size3 := write3 ext).
   set (hs := if large then 32 else 24).
@@ -238,8 +241,17 @@ Proof.
   assert (C5 : (if attr_checksum attr then (sum8 (zskipn hs out) + ckf) mod 256 =? 0 else ckf =? 170) = true).
   { unfold hs, out. rewrite (fhb_body _ _ _ _ _ _ _ _ _ _ Hg). unfold ckf.
     destruct (attr_checksum attr); [rewrite ck_body_zero|]; reflexivity. }
-  rewrite C1, C2, C3, C4, C5, Hsup. reflexivity.
+  rewrite C1, C2, C3, C4, C5. cbn [andb].
+  destruct (supported_file (f_type h)); [|reflexivity].
+  rewrite Lout. rewrite Hhs. apply Hsup. reflexivity.
 Qed.
+
+Lemma caa_v_file h ext attr data :
+  zlen (f_guid h) = 16 -> 0 <= ext < 2 ^ 64 ->
+  ext = file_hlen attr + zlen data -> attr_large attr = (16777215 <=? ext) ->
+  supported_file (f_type h) = false ->
+  v_file vfv venc dec (snd (checksum_and_assemble h ext attr data)) = true.
+Proof. intros Hg He Hext Hl Hsup. apply caa_v_file_gen; auto. rewrite Hsup. discriminate. Qed.
 
 End CaaValid.
 
@@ -319,8 +331,8 @@ Proof.
     inversion H. unfold file_hlen. rewrite L. reflexivity.
 Qed.
 
-Lemma pad_v_file (vfv : bytes -> bool) pol size b :
-  create_pad_file pol size = Ok b -> size < 2 ^ 64 -> v_file vfv b = true.
+Lemma pad_v_file (vfv venc : bytes -> bool) (dec : Z -> bytes -> option bytes) pol size b :
+  create_pad_file pol size = Ok b -> size < 2 ^ 64 -> v_file vfv venc dec b = true.
 Proof.
   intros H Hs. destruct (pad_as_caa pol size b H) as (attr & Ha & Hl & H24 & Hp & ->).
   assert (Hh : file_hlen attr <= size) by (unfold file_hlen; destruct (attr_large attr); lia).
@@ -395,14 +407,28 @@ Proof. apply all_eq_skipn. Qed.
 Lemma all_eq_zfirstn v n l : all_eq v l = true -> all_eq v (zfirstn n l) = true.
 Proof. apply all_eq_firstn. Qed.
 
+Lemma end_of_ge : forall l off, 0 <= off -> off <= end_of off l.
+Proof.
+  induction l as [|f r IH]; intros off Hoff; cbn [end_of]; [lia|].
+  destruct (align_gap_ok off f Hoff) as (G1 & _). pose proof (align8_ge off).
+  pose proof (zlen_nonneg (node_buf f)).
+  assert (0 <= file_end off f) by (unfold file_end; lia).
+  specialize (IH (file_end off f) H1). unfold file_end in *. lia.
+Qed.
+
+Lemma align8_fix p : p mod 8 = 0 -> align8 p = p.
+Proof. intros H. unfold align8, align. Z.div_mod_to_equations. lia. Qed.
+
 Section FilesValid.
 Variable vfv : bytes -> bool.
+Variable venc : bytes -> bool.
+Variable dec : Z -> bytes -> option bytes.
 Variable pol : Z.
 
 (* a file the reader accepts on its own, whose header cannot be mistaken for free space *)
-Definition fok (g : bytes) : bool := v_file vfv g && negb (all_eq pol (sub 0 24 g)).
+Definition fok (g : bytes) : bool := v_file vfv venc dec g && negb (all_eq pol (sub 0 24 g)).
 
-Lemma v_file_facts g : v_file vfv g = true ->
+Lemma v_file_facts g : v_file vfv venc dec g = true ->
   file_hlen (rd 19 1 g) <= zlen g /\
   (if attr_large (rd 19 1 g) then rd 24 8 g else rd 20 3 g) = zlen g.
 Proof.
@@ -414,7 +440,7 @@ Qed.
 (* one step of the reader over a file g that lies at the 8-aligned offset p *)
 Lemma v_files_step k (A g R : bytes) p : zlen A = p -> 0 <= p ->
   fok g = true -> (p + file_hlen (rd 19 1 g)) mod attr_align (rd 19 1 g) = 0 ->
-  v_files vfv (S k) pol (A ++ g ++ R) p = v_files vfv k pol (A ++ g ++ R) (align8 (p + zlen g)).
+  v_files vfv venc dec (S k) pol (A ++ g ++ R) p = v_files vfv venc dec k pol (A ++ g ++ R) (align8 (p + zlen g)).
 Proof.
   intros HA Hp Hok Hal. unfold fok in Hok. apply andb_true_iff in Hok as [Hv Hnf].
   destruct (v_file_facts g Hv) as [Hhl Hsz].
@@ -442,22 +468,10 @@ Proof.
   rewrite Sg, Hv, Hal. reflexivity.
 Qed.
 
-Lemma v_files_free k V p : all_eq pol (zskipn p V) = true -> v_files vfv (S k) pol V p = true.
+Lemma v_files_free k V p : all_eq pol (zskipn p V) = true -> v_files vfv venc dec (S k) pol V p = true.
 Proof.
   intros H. cbn [v_files]. destruct (zlen V <? p + 24); [exact H|].
   unfold sub. rewrite (all_eq_zfirstn _ _ _ H). exact H.
-Qed.
-
-Lemma align8_fix p : p mod 8 = 0 -> align8 p = p.
-Proof. intros H. unfold align8, align. Z.div_mod_to_equations. lia. Qed.
-
-Lemma end_of_ge : forall l off, 0 <= off -> off <= end_of off l.
-Proof.
-  induction l as [|f r IH]; intros off Hoff; cbn [end_of]; [lia|].
-  destruct (align_gap_ok off f Hoff) as (G1 & _). pose proof (align8_ge off).
-  pose proof (zlen_nonneg (node_buf f)).
-  assert (0 <= file_end off f) by (unfold file_end; lia).
-  specialize (IH (file_end off f) H1). unfold file_end in *. lia.
 Qed.
 
 (* the whole loop *)
@@ -467,7 +481,7 @@ Lemma v_files_place limit : forall files buf off B,
   (forall f, In f files -> zlen (node_buf f) < 2 ^ 64) -> end_of off files < 2 ^ 64 ->
   place_files pol limit buf off files = Ok B ->
   forall E fuel, all_eq pol E = true -> (2 * length files < fuel)%nat ->
-    v_files vfv fuel pol (B ++ E) (align8 off) = true.
+    v_files vfv venc dec fuel pol (B ++ E) (align8 off) = true.
 Proof.
   induction files as [|f r IH]; intros buf off B Hpol Hb Hoff Hok Hsz Hend H E fuel HE Hfuel; subst off.
   - cbn [place_files] in H. inversion H; subst B. destruct fuel as [|k]; [cbn in Hfuel; lia|].
@@ -527,7 +541,7 @@ Proof.
         -- rewrite Hattr. exact G3.
       * rewrite zlen_app, zlen_zrepeat by lia. lia.
       * lia.
-      * unfold fok. rewrite (pad_v_file vfv pol (no - a0) pf Hp), (pad_not_free pol (no - a0) pf Hp); [reflexivity|].
+      * unfold fok. rewrite (pad_v_file vfv venc dec pol (no - a0) pf Hp), (pad_not_free pol (no - a0) pf Hp); [reflexivity|].
         pose proof (zlen_nonneg (node_buf f)). pose proof (end_of_ge r _ Hpos). lia.
       * rewrite Pa. apply Z.mod_1_r.
 Qed.
@@ -600,12 +614,12 @@ Proof.
 Qed.
 
 (* the reader accepts the file area of a rebuilt non-resizable volume *)
-Lemma asm_vol_files_valid vfv pol ffs3 h buf files h' b :
+Lemma asm_vol_files_valid vfv venc dec pol ffs3 h buf files h' b :
   asm_vol pol ffs3 h buf files = Ok (h', b) ->
   vol_verbatim h files = false -> v_resizable h = false ->
   60 <= v_dataoff h -> v_dataoff h mod 8 = 0 -> (pol = 0 \/ pol = 255) -> v_length h < 2 ^ 64 ->
-  Forall (fun f => fok vfv pol (node_buf f) = true /\ rd 19 1 (node_buf f) = node_attr f) files ->
-  forall fuel, (2 * length files < fuel)%nat -> v_files vfv fuel pol b (v_dataoff h) = true.
+  Forall (fun f => fok vfv venc dec pol (node_buf f) = true /\ rd 19 1 (node_buf f) = node_attr f) files ->
+  forall fuel, (2 * length files < fuel)%nat -> v_files vfv venc dec fuel pol b (v_dataoff h) = true.
 Proof.
   intros H Hv Hr Hd Hm Hpol Hlen Hok fuel Hfuel.
   destruct (asm_vol_v_len _ _ _ _ _ _ _ H Hv Hr) as [Lb _].
@@ -756,15 +770,15 @@ Proof.
 Qed.
 
 (* the volume-assembly core of C02 in one statement *)
-Lemma asm_vol_valid_core vfv pol ffs3 h buf files h' b :
+Lemma asm_vol_valid_core vfv venc dec pol ffs3 h buf files h' b :
   asm_vol pol ffs3 h buf files = Ok (h', b) ->
   vol_verbatim h files = false -> v_resizable h = false ->
   60 <= v_dataoff h -> v_dataoff h mod 8 = 0 -> 52 <= v_hdrlen h ->
   (pol = 0 \/ pol = 255) -> v_length h < 2 ^ 64 ->
-  Forall (fun f => fok vfv pol (node_buf f) = true /\ rd 19 1 (node_buf f) = node_attr f) files ->
+  Forall (fun f => fok vfv venc dec pol (node_buf f) = true /\ rd 19 1 (node_buf f) = node_attr f) files ->
   zlen b = v_length h /\ v_length h' = v_length h /\
   sum16 (sub 0 (v_hdrlen h) b) = 0 /\
-  forall fuel, (2 * length files < fuel)%nat -> v_files vfv fuel pol b (v_dataoff h) = true.
+  forall fuel, (2 * length files < fuel)%nat -> v_files vfv venc dec fuel pol b (v_dataoff h) = true.
 Proof.
   intros H Hv Hr Hd Hm H52 Hp Hl Hok.
   destruct (asm_vol_v_len _ _ _ _ _ _ _ H Hv Hr) as [L1 L2].
@@ -773,10 +787,10 @@ Proof.
   - eapply asm_vol_files_valid; eauto.
 Qed.
 
-Lemma pad_file_valid : forall vfv pol size b,
+Lemma pad_file_valid : forall vfv venc dec pol size b,
   create_pad_file pol size = Ok b -> size < 2 ^ 64 ->
-  v_file vfv b = true /\ all_eq pol (sub 0 24 b) = false /\ zlen b = size.
+  v_file vfv venc dec b = true /\ all_eq pol (sub 0 24 b) = false /\ zlen b = size.
 Proof.
-  intros vfv pol size b H Hs. split; [exact (pad_v_file vfv pol size b H Hs)|].
+  intros vfv venc dec pol size b H Hs. split; [exact (pad_v_file vfv venc dec pol size b H Hs)|].
   split; [exact (pad_not_free pol size b H) | exact (create_pad_file_len pol size b H)].
 Qed.
